@@ -20,6 +20,8 @@ pub proof fn lemma_bvf_hash_words<const N: usize>(v: &Bvf<{I}, N>)
         // top word not zero
         if m > 0 {
             let t = ((r - 1) % {I.bits}) as {I};
+            vstd::arithmetic::div_mod::lemma_fundamental_div_mod(r + {I.bits} - 1, {I.bits});
+            lemma_divmod_at{X}(m - 1, (r - 1) - (m - 1) * {I.bits});
             assert((r - 1) / {I.bits} == m - 1);
             assert(wbit{X}(v.data@[m - 1], t as nat));
             if v.data@[m - 1] == 0 { lemma_wbit_zero{X}(t); }
